@@ -1348,4 +1348,8 @@ pub mod verif_hooks {
     pub fn shared_memory_fd(region: &OsIpcSharedMemory) -> c_int {
         region.store.fd()
     }
+    /// how many descriptors the receiver's control buffer is sized for
+    pub fn max_fds_in_cmsg() -> usize {
+        MAX_FDS_IN_CMSG as usize
+    }
 }
